@@ -32,6 +32,15 @@ def sh(cmd, cwd=None, timeout=None, env=None):
         return 124, (e.stdout or b"").decode("utf-8", "replace"), (e.stderr or b"").decode("utf-8", "replace") + "\nTIMEOUT", time.time() - t0
 
 
+# failed exits of `sample` that identify one clause of its contract (text of the real return statement)
+ATTRIBUTION = {
+    "sampling": [
+        {"regex": r"return Err\(SamplingError::MatrixError", "tags": ["C16"]},
+        {"regex": r"SamplingError::GammaError\(e_ctor\)", "tags": ["C12", "C14"]},
+    ],
+}
+
+
 class Undecided(Exception):
     pass
 
@@ -478,6 +487,12 @@ def check_property(root, pid, tier, seed):
                     fl["unit"] = u["unit"]
                     # an obligation tagged [Cxx] in the overlay belongs to exactly those properties
                     tags = set(re.findall(r"\[(C\d+)\]", fl.get("unit_text", "") + " " + " ".join(str(l[2]) for l in fl.get("labels", []))))
+                    if not tags:
+                        # attribution rules of the unit: an exit statement of the real code identifies the clause that fails there
+                        alltext = fl.get("unit_text", "") + " " + " ".join(str(l[2]) for l in fl.get("labels", []))
+                        for rule in ATTRIBUTION.get(u["unit"], []):
+                            if re.search(rule["regex"], alltext):
+                                tags |= set(rule["tags"])
                     fl["tags"] = sorted(tags)
                     if tags and pid not in tags:
                         out_of_scope.append("%s::%s — %s [tagged %s]" % (u["unit"], fl.get("function"), fl["message"], ",".join(sorted(tags))))
